@@ -348,7 +348,9 @@ def r_stop_onlyexit(run, F, rule_stop="R-STOP", rule_exit="R-ONLYEXIT"):
             for t in p.trace:
                 if is_call(t, "<loop>"):
                     brks = t[3].get("breaks", [])
-                    run.ob(rule_exit, "%s: one break in the drive loop" % short, len(brks) == 1, "%d breaks" % len(brks), site(b), key="%s|%s|breaks" % (rule_exit, fn))
+                    # one way out that is not an error: a single `break` (success returned after the loop) or no break and the single Ok return inside it
+                    run.ob(rule_exit, "%s: one break in the drive loop" % short, len(brks) == 1 or (len(brks) == 0 and len(oks) == 1), "%d breaks" % len(brks), site(b),
+                           key="%s|%s|breaks" % (rule_exit, fn))
                     # R-LOOP for the input loop: every iteration that loops again has consumed a tag
                     for bp in t[3].get("paths", []):
                         consumed = any(is_call(c) and c[1].endswith("::read_tag") for c in bp.trace)
@@ -633,8 +635,8 @@ def r_reject(run, F, rule="R-REJECT"):
     T = load_json(os.path.join(VERIF, "tables", "rejects.json"))["allowed"]
     g = gr.call_graph(F)
     pc = gr.cone(g, gr.PARSE_ROOTS)
-    core = sorted(f for f in pc if f.startswith(("ipp::parser::", "ipp::reader::", "ipp::value::IppValue::parse", "ipp::value::get_len_string")) or
-                  (f.startswith("ipp::value::") and F.hir[f]["kind"] == "Fn"))
+    core = sorted(f for f in pc if (f.startswith(("ipp::parser::", "ipp::reader::", "ipp::value::IppValue::parse", "ipp::value::get_len_string")) or
+                                    (f.startswith("ipp::value::") and F.hir[f]["kind"] == "Fn")) and gr.standalone(F, f))
 
     def head(t):
         if t[0] == "ctor" and t[2]:
